@@ -148,3 +148,9 @@ reg('C12', 'bounds', 'rule_encoder_total')   # an encoder that panics on a decod
 reg('C12', 'codec', 'rule_enc_omit')
 reg('C04', 'codec', 'rule_enc_omit')         # columns=false attribution is what the line-only encoder writes
 reg('C17', 'bounds', 'rule_views_total', ('dev', 'release'))
+
+# ---- round 5
+reg('C11', 'streams', 'rule_tee_forward')
+reg('C06', 'streams', 'rule_tee_forward')
+reg('C10', 'streams', 'rule_tee_forward')
+reg('C15', 'jsonmap', 'rule_json_entries_alike')
